@@ -16,7 +16,7 @@ use std::collections::BTreeMap;
 use std::path::{Path, PathBuf};
 use std::process::Command;
 
-const RULE: &str = "configurations enumerated exhaustively: check x format x graph x verbosity {0,1,2} x short x output {default, other directory, path that is a regular file, missing directory} x pre-existing {none, lexer.rs, parser.rs, both} x verdict {accepted, warnings only, syntax error, semantic error, missing input, input is a directory, input not UTF-8} x, with -f, {input as generated, input already formatted} x, in generate mode, {grammar given with a directory, grammar given as a bare file name from its own directory} (8064 configurations), each with a grammar drawn from a generated pool of its verdict class (1 per configuration quick, 4 thorough), plus lelwel::build through a helper process with OUT_DIR set. Oracle: snapshot (names, bytes, modification times) of working directory, input directory and output directory before and after the real `llw` process against an effects model from the statement: check mode => no difference at all; generate => generated.rs appears iff no error and the output directory is usable, lexer.rs/parser.rs appear iff no error and neither existed, pre-existing ones byte-identical; format without check => only the input file may change and becomes format(x); parser.gv only with -g outside check mode; exit status 0 <=> no error diagnostic (I/O failure counts as error); never a panic. non-trivial = configuration whose expected effect set is non-empty or that combines check with a writing flag; distinct = configuration";
+const RULE: &str = "configurations enumerated exhaustively: check x format x graph x verbosity {0,1,2} x short x output {default, other directory, path that is a regular file, missing directory} x pre-existing {none, lexer.rs, parser.rs, both} x verdict {accepted, warnings only, syntax error, semantic error, missing input, input is a directory, input not UTF-8} x, with -f, {input as generated, input already formatted} x, in generate mode, {grammar given with a directory, grammar given as a bare file name from its own directory} (7488 configurations), each with a grammar drawn from a generated pool of its verdict class (1 per configuration quick, 4 thorough), plus lelwel::build through a helper process with OUT_DIR set. Oracle: snapshot (names, bytes, modification times) of working directory, input directory and output directory before and after the real `llw` process against an effects model from the statement: check mode => no difference at all; generate => generated.rs appears iff no error and the output directory is usable, lexer.rs/parser.rs appear iff no error and neither existed, pre-existing ones byte-identical; format without check => only the input file may change and becomes format(x); parser.gv only with -g outside check mode; exit status 0 <=> no error diagnostic (I/O failure counts as error); never a panic. non-trivial = configuration whose expected effect set is non-empty or that combines check with a writing flag; distinct = configuration";
 
 #[derive(Clone, Copy, Debug, PartialEq, Eq)]
 pub enum Verdict {
